@@ -96,6 +96,8 @@ ScenarioProps(v) ==
   IF v \cap {"dec_val", "dec_n", "dec_accept", "enc_bytes", "enc_ok", "size_exact", "size_ok", "enc_n"} # {} /\
      cur.prop \in {"C09", "C10", "C11", "C12", "C14"}
   THEN {cur.prop}
+  ELSE IF cur.prop = "C03" /\ v \cap {"deep_accept", "deep_nocrash"} # {}
+  THEN {"C03"}       \* a well-formed message inside the conventional nesting limit is a message the reader must accept
   ELSE IF cur.prop \in {"C03", "C09", "C10", "C11"} /\ v \cap {"recheck_stable", "mem_crash"} # {}
   THEN {cur.prop}    \* a decoded value that changes under garbage collection was not decoded properly
   ELSE IF cur.prop = "C12" /\ v \cap {"nocopy_exact", "nocopy_follows", "walk_noinput"} # {}
